@@ -44,7 +44,7 @@ class P(Profile):
     wait_exit = 0.2
     startsecs = (0, 1, 6, 12)
     startretries = (0, 1)
-    fault_ops = ('crash', 'restart')
+    fault_ops = ('crash', 'restart', 'crash_target', 'crash_target')
     proc_ops = ('exit', 'swallow', 'swallow')
     user_ops = ('rpc_app', 'rpc_app', 'rpc_app')
     op_rate = 0.3
@@ -90,6 +90,7 @@ class StartOrderMonitor(Monitor):
         self.user_started = set()
         self.forced = {}         # (X idx, X inc, namespec) -> time of the last forced FATAL published by X
         self.stops = {}          # (X idx, X inc, namespec) -> time of the last stop request emitted by X
+        self.lost_seen = {}      # (X idx, X inc, identifier) -> last time X saw that instance leave RUNNING
         self.left_working = {}   # (X idx, X inc) -> last time X was seen out of the working states
 
     # --- observations
@@ -100,6 +101,10 @@ class StartOrderMonitor(Monitor):
                 self.user_started.add(args[1])
         except (IndexError, TypeError):
             pass
+
+    def on_instance_state(self, inst, identifier, new_state):
+        if getattr(new_state, 'name', str(new_state)) != 'RUNNING':
+            self.lost_seen[(inst.idx, inst.incarnation, identifier)] = inst.world.now
 
     def on_publication(self, inst, ptype, body):
         if ptype.name == 'PROCESS' and body.get('forced') and int(body['state']) == FATAL:
@@ -134,7 +139,7 @@ class StartOrderMonitor(Monitor):
         tidx, tinc = rec['target']
         target = world.instances[tidx]
         if not target.alive or target.incarnation != tinc:
-            rec['resolved'] = 'target lost'
+            rec['target_dead'] = True     # resolved when the emitter knows it (see _resolved)
             return
         state = target.truth().get(namespec)
         p = self.ref.progs[namespec]
@@ -167,9 +172,14 @@ class StartOrderMonitor(Monitor):
             return rec['resolved']
         target = w.instances[rec['target'][0]]
         status = inst.supvisors.context.instances.get(target.identifier)
-        if status is None or status.state.name != 'RUNNING':
+        if inst.idx == target.idx and rec.get('target_dead'):
+            rec['resolved'] = 'emitter restarted'
+            return rec['resolved']
+        lost_at = self.lost_seen.get((inst.idx, inst.incarnation, target.identifier), -1)
+        if status is None or status.state.name != 'RUNNING' or lost_at >= rec['time']:
             rec['resolved'] = 'target lost for the emitter'
             if not rec['ran']:
+                self.flags.add('target-lost-while-starting')
                 # the request was still pending for the emitter: a start failure (host lost)
                 self._note_failure(inst, namespec, f'{target.nick} lost for the emitter while the process was starting')
             return rec['resolved']
